@@ -1589,6 +1589,54 @@ fn item_open_string_sequence(i: &TItem) -> bool {
     }
 }
 
+// ------------------------------------------------------------------------------------------------------------------
+// phase 0: grammatical corner forms of the definition language that the random generator does not produce: EMPTY member lists
+// (`"struct" [ident] "{" [struct_member_list] "}"`, likewise taggedstruct / taggedunion), in-file, built-in, and both modes.
+// Conforming content (here: the one uint in front of the empty list) must be valid, clean, and survive write + reload.
+fn phase0(rep: &mut Report) {
+    for kind in ["struct", "taggedstruct", "taggedunion"] {
+        for named in [false, true] {
+            for builtin in [false, true] {
+                for strict in [false, true] {
+                    let (prefix, member) = if named {
+                        (format!("{kind} Empty_t {{ }};\n"), format!("{kind} Empty_t"))
+                    } else {
+                        (String::new(), format!("{kind} {{ }}"))
+                    };
+                    let aml = format!("{prefix}block \"IF_DATA\" taggedunion {{ \"V\" struct {{ uint; {member}; }}; }};");
+                    let infile = if builtin { String::new() } else { format!("/begin A2ML\n{aml}\n/end A2ML\n") };
+                    let text = format!(
+                        "ASAP2_VERSION 1 71\n/begin PROJECT p \"\"\n/begin MODULE m \"\"\n{infile}/begin IF_DATA V 5 /end IF_DATA\n/end MODULE\n/end PROJECT\n"
+                    );
+                    let spec = if builtin { Some(aml.clone()) } else { None };
+                    let id = format!("phase0:empty-{kind}:named={named}:builtin={builtin}:strict={strict}");
+                    let input = format!("a2ml_spec argument: {:?}\n=== strict={strict} document:\n{text}", spec);
+                    let id2 = id.clone();
+                    rep.run(&id, &input, move || {
+                        let (a, warnings) = match a2lfile::load_from_string(&text, spec.clone(), strict) {
+                            Ok(x) => x,
+                            Err(e) => return fail(&format!("{id2}/load"), "a definition with an empty member list is well-formed: the document loads", format!("error: {e}")),
+                        };
+                        if !warnings.is_empty() {
+                            return fail(&format!("{id2}/warnings"), "well-formed definition, conforming IF_DATA: no warnings", format!("{} warnings, first: {}", warnings.len(), warnings[0]));
+                        }
+                        let valid = a.project.module[0].if_data.first().map(|i| i.ifdata_valid);
+                        if valid != Some(true) {
+                            return fail(&format!("{id2}/valid"), "conforming IF_DATA is recognised as valid", format!("ifdata_valid = {valid:?}"));
+                        }
+                        let written = a.write_to_string();
+                        match a2lfile::load_from_string(&written, spec.clone(), strict) {
+                            Ok((b, w2)) if w2.is_empty() && b == a => Ok(()),
+                            Ok((_, w2)) => fail(&format!("{id2}/reload"), "write + reload gives an equal model without warnings", format!("{} warnings or different model; written: {written}", w2.len())),
+                            Err(e) => fail(&format!("{id2}/reload"), "written file loads", format!("error: {e}; written: {written}")),
+                        }
+                    });
+                }
+            }
+        }
+    }
+}
+
 #[test]
 fn vf_driver_c18() {
     println!();
@@ -1596,6 +1644,7 @@ fn vf_driver_c18() {
     let mut rep = Report::new();
     let thorough = rep.budget == "thorough";
     let mut rng = Rng(rep.seed.wrapping_mul(0x2545_F491_4F6C_DD1D) ^ 0xC18);
+    phase0(&mut rep);
     phase1(&mut rep, &mut rng);
     let t1 = start.elapsed();
     let n1 = rep.cases;
